@@ -258,7 +258,8 @@ type c19Transfer struct {
 }
 
 func genC19Transfer(t *rapid.T) c19Transfer {
-	sets := [][]byte{{0}, {1}, {0, 1}, {1, 0}}
+	// sets with a version number this code has no ACCEPT encoding for (2) are used for the FINDCONTENT leg only
+	sets := [][]byte{{0}, {1}, {0, 1}, {1, 0}, {0, 1}, {0, 1, 2}, {2, 1}, {2}}
 	n := rapid.IntRange(1, 4).Draw(t, "items")
 	items := make([]int, n)
 	for i := range items {
@@ -301,6 +302,10 @@ func runC19Transfer(p c19Transfer, c *stats.Case) error {
 	}
 	c.Class(fmt.Sprintf("pair:%v-%v", sa, sb))
 
+	if ok && common >= 2 {
+		c.NT("common-version>=2-findcontent-only")
+		return c19FindContent(a, b, p, common, c)
+	}
 	// --- OFFER a -> b
 	entries := make([]*portalwire.ContentEntry, len(p.Items))
 	for i, l := range p.Items {
@@ -366,6 +371,10 @@ func runC19Transfer(p c19Transfer, c *stats.Case) error {
 		return nil
 	}
 
+	return c19FindContent(a, b, p, common, c)
+}
+
+func c19FindContent(a, b *pp.Live, p c19Transfer, common uint8, c *stats.Case) error {
 	// --- large FINDCONTENT a <- b
 	key := contentKey(1000)
 	want := fillBytes(p.ContentLen, 0x5a)
